@@ -110,20 +110,40 @@ def run_zygotes(histories, hashseed, procs=16):
     # PYTHONPATH is inherited on purpose: a scratch tree placed in front of /repo (mutation self-test) must be
     # the one the child processes import as well.
 
+    def failed(msg):
+        return {"failed": msg[-1200:], "calls": [], "mutations": []}
+
     def one(idx):
+        # Whatever the child interpreter does (dies at import, is killed, prints garbage, returns too few lines) is an
+        # OUTCOME of the histories it was given, never an exception of this driver.
         inp = "".join(json.dumps(histories[i]) + "\n" for i in idx)
-        p = subprocess.run([sys.executable, "-c", RUNTIME + "\nzygote_main()\n"], input=inp, capture_output=True, text=True, env=env)
+        try:
+            p = subprocess.run([sys.executable, "-c", RUNTIME + "\nzygote_main()\n"], input=inp, capture_output=True, text=True,
+                               env=env, timeout=3600)
+        except Exception as e:
+            return [failed(f"fresh interpreter could not be run: {type(e).__name__}: {e}") for _ in idx]
         lines = [ln for ln in p.stdout.splitlines() if ln.strip()]
-        if p.returncode != 0 or len(lines) != len(idx):
-            raise RuntimeError(f"C18 zygote failed (rc={p.returncode}, {len(lines)}/{len(idx)} results): {p.stderr[-1500:]}")
-        return [json.loads(ln) for ln in lines]
+        res = []
+        for j in range(len(idx)):
+            if j >= len(lines):
+                res.append(failed(f"fresh interpreter ended early (rc={p.returncode}, {len(lines)}/{len(idx)} results): {p.stderr}"))
+                continue
+            try:
+                r = json.loads(lines[j])
+                if not isinstance(r, dict) or ("calls" not in r and "driver_error" not in r):
+                    raise ValueError("not a result record")
+            except Exception:
+                r = failed(f"unreadable result line {lines[j][:200]!r}; stderr: {p.stderr}")
+            if "driver_error" in r:
+                # run_history raised outside the guarded calls: the snapshot / digest code was fed something it cannot digest
+                r = failed("history could not be judged in the child process: " + r["driver_error"])
+            res.append(r)
+        return res
 
     out = [None] * len(histories)
     with cf.ThreadPoolExecutor(procs) as ex:
         for idx, res in zip(chunks, ex.map(one, chunks)):
             for i, r in zip(idx, res):
-                if "driver_error" in r:
-                    raise RuntimeError("C18 runtime crashed (driver bug, not a violation): " + r["driver_error"])
                 out[i] = r
     return out
 
@@ -250,6 +270,19 @@ def _check_histories(ctx, b, rep, histories, base, iso_results):
     for h, r in zip(histories, base):
         key = json.dumps(h, sort_keys=True)
         b.case(key, nontrivial=len(h) > 1, sample=_describe(h))
+        try:
+            _check_one_history(rep, h, r, iso_results)
+        except Exception as e:
+            f = K.oracle_failure(e, "C18.history.call-equals-fresh-call", _describe(h))
+            rep.fail(f["clause"], f["cls"], f["witness"], f["detail"])
+
+
+def _check_one_history(rep, h, r, iso_results):
+    if True:
+        if r.get("failed"):
+            rep.fail("C18.history.call-equals-fresh-call", "oracle-not-applicable:child-process-failed",
+                     {"history": _describe(h), "code": repro_mutation(h)}, r["failed"])
+            return
         for m in r["mutations"]:
             op = h[m["after_call"]]
             cls = f"{m['what']}:{op[0]}:{_spec_name(op[1]) if op[0] in BUILD_KINDS else 'reuse'}"
@@ -265,7 +298,12 @@ def _check_histories(ctx, b, rep, histories, base, iso_results):
         for i, c in enumerate(r["calls"]):
             if c.get("exception", "").startswith("RuntimeError: SKIP"):
                 continue
-            iso = iso_results[json.dumps(isolated_chain(h, i), sort_keys=True)]["calls"][-1]
+            iso_r = iso_results[json.dumps(isolated_chain(h, i), sort_keys=True)]
+            if iso_r.get("failed"):
+                rep.fail("C18.history.call-equals-fresh-call", "oracle-not-applicable:child-process-failed",
+                         {"history": _describe(h), "call": i, "code": repro_history(h, i)}, "fresh counterpart: " + iso_r["failed"])
+                continue
+            iso = iso_r["calls"][-1]
             if c["digest"] != iso["digest"]:
                 deviates.add(i)
                 if h[i][0] in ("reuse", "mm_of") and h[i][1] in deviates:
@@ -277,7 +315,7 @@ def _check_histories(ctx, b, rep, histories, base, iso_results):
                          f"call {i} {h[i]} inside the history: {json.dumps(c)[:600]} ; same call in a fresh process: {json.dumps(iso)[:600]}")
 
 
-def run_bounded(ctx):
+def _run_bounded(ctx):
     rng = random.Random(ctx.seed * 7919 + 18)
     ctx.assume(
         "A-C18-fresh: 'fresh interpreter' = a process forked from an interpreter that has only imported numpy, pandas, "
@@ -358,6 +396,10 @@ def run_bounded(ctx):
             got = run_zygotes(hs, seed)
             for h, r0, r1 in zip(hs, ref, got):
                 b.case((json.dumps(h, sort_keys=True), seed), nontrivial=True)
+                if r0.get("failed") or r1.get("failed"):
+                    rep.fail("C18.hashseed.identical", "oracle-not-applicable:child-process-failed",
+                             {"history": _describe(h), "seed": seed, "code": repro_hashseed(h)}, r0.get("failed") or r1.get("failed"))
+                    continue
                 # A failing build is compared as "failed": when several factors of one build are in error, WHICH of
                 # them is reported first follows the iteration order of a set of factors and does vary with the hash
                 # seed; the statement speaks about results (values, column order, dropped rows), not error texts.
@@ -376,3 +418,10 @@ def run_bounded(ctx):
             "processes, inputs compared with deep copies, every call compared bit for bit with the same call in a fresh "
             "process, and all digests compared across five hash seeds"
         )
+
+
+def run_bounded(ctx):
+    """Never raises because of what the library under test returns or raises: anything that slips past the
+    per-case guards is recorded as a violation (class oracle-not-applicable:<Type>) and the run ends normally."""
+    with K.guard(ctx, "C18.history.call-equals-fresh-call", "c18.run_bounded"):
+        _run_bounded(ctx)
